@@ -11,7 +11,7 @@ from .absdom import Aff, Constraints, Piece, show_pieces
 from .absint import (ABoolTerm, ACollection, AExc, AFormat, AList, AMap, AMapGen, AObj, AReMatch, ARec, ASeq, AStruct,
                      BoundMethod, Frame, Interp, LibRef, Outcome, RaiseSig, Term, AFeatList)
 from .kernels import N, ZERO, circ_record, emit, pieces_of, region_name, run_paths
-from .loader import AnalysisError, ClassInfo, FuncInfo
+from .loader import AnalysisError, ClassInfo, FuncInfo, Program
 
 NORMALISERS = ("upper", "lower", "casefold")
 
@@ -36,14 +36,10 @@ def run_kernel(ctx, k: str, pid: str):
 # K2  DNARegex.search
 
 
-def k2_search(ctx, pid: str):
-    r = ctx.report
+def _search_setup(ctx):
     p = ctx.program
-    fi = p.get_func("moclo.regex.DNARegex.search")
     cls = p.get_class("moclo.regex.DNARegex")
-    sm_cls = p.get_class("moclo.regex.SeqMatch")
     POS, END = Aff.sym("pos"), Aff.sym("endpos")
-    rule = "K2.search"
 
     def regex_match(fr, args, kwargs, node):
         if kwargs or len(args) != 3:
@@ -59,19 +55,8 @@ def k2_search(ctx, pid: str):
             return BoundMethod("py", regex_match, a)
         return NotImplemented
 
-    scenarios = []
-    for kind in ("CircularRecord", "SeqRecord", "Seq", "str"):
-        for linear in (None, True, False):
-            for explicit in (False, True):
-                scenarios.append((kind, linear, explicit))
-
-    for kind, linear, explicit in scenarios:
-        circular = kind == "CircularRecord" or (linear is False)
-        facts = [N - 1]
-        if explicit:
-            facts += [POS, END]
-
-        def make_args(I, kind=kind, linear=linear, explicit=explicit):
+    def make_args_for(kind, linear, explicit):
+        def make_args(I):
             if kind == "CircularRecord":
                 s = circ_record()
             elif kind == "SeqRecord":
@@ -88,6 +73,76 @@ def k2_search(ctx, pid: str):
                 kw["pos"], kw["endpos"] = POS, END
             I.the_string = s
             return (obj, s), kw
+
+        return make_args
+
+    return POS, END, getattr_hook, make_args_for
+
+
+def seqmatch_templates(ctx):
+    """The match objects the search hands out, per (target kind, linear flag):
+    the attributes its constructor call leaves on them besides the library
+    match and the target.  K1 evaluates group() on objects built this way."""
+    p = ctx if isinstance(ctx, Program) else ctx.program
+    cached = getattr(p, "_seqmatch_templates", None)
+    if cached is not None:
+        return cached
+
+    class _Shim(object):
+        program = p
+
+    ctx = _Shim()
+    fi = p.get_func("moclo.regex.DNARegex.search")
+    sm_cls = p.get_class("moclo.regex.SeqMatch")
+    POS, END, getattr_hook, make_args_for = _search_setup(ctx)
+    out = {}
+    for kind in ("CircularRecord", "SeqRecord", "Seq"):
+        for linear in (None, True, False):
+            outs = run_paths(ctx, fi, make_args_for(kind, linear, False), [N - 1], hooks={"getattr": getattr_hook})
+            found = [o for o in outs if o.kind == "return" and isinstance(o.value, AObj) and o.value.cls is sm_cls]
+            if not found:
+                raise AnalysisError("DNARegex.search(%s, linear=%s) never returns a SeqMatch" % (kind, linear))
+            tmpl = None
+            for o in found:
+                extra = {k: ("<match>" if isinstance(v, AReMatch) else "<target>" if isinstance(v, (ARec, ASeq)) else v)
+                         for k, v in o.value.attrs.items()}
+                if tmpl is not None and repr(sorted(tmpl.items())) != repr(sorted(extra.items())):
+                    raise AnalysisError("DNARegex.search builds differently shaped matches on different paths: %r / %r" % (tmpl, extra))
+                tmpl = extra
+            out[(kind, linear)] = tmpl
+    p._seqmatch_templates = out
+    return out
+
+
+def new_seqmatch(p, rm, rec, key=("CircularRecord", None), name=None):
+    """A SeqMatch shaped as DNARegex.search builds it for that kind of target."""
+    tmpl = seqmatch_templates(p)[key]
+    attrs = {k: (rm if v == "<match>" else rec if v == "<target>" else v) for k, v in tmpl.items()}
+    return AObj(p.get_class("moclo.regex.SeqMatch"), attrs, name=name)
+
+
+def k2_search(ctx, pid: str):
+    r = ctx.report
+    p = ctx.program
+    fi = p.get_func("moclo.regex.DNARegex.search")
+    cls = p.get_class("moclo.regex.DNARegex")
+    sm_cls = p.get_class("moclo.regex.SeqMatch")
+    POS, END, getattr_hook, make_args_for = _search_setup(ctx)
+    rule = "K2.search"
+
+    scenarios = []
+    for kind in ("CircularRecord", "SeqRecord", "Seq", "str"):
+        for linear in (None, True, False):
+            for explicit in (False, True):
+                scenarios.append((kind, linear, explicit))
+
+    for kind, linear, explicit in scenarios:
+        circular = kind == "CircularRecord" or (linear is False)
+        facts = [N - 1]
+        if explicit:
+            facts += [POS, END]
+
+        make_args = make_args_for(kind, linear, explicit)
 
         def post(I, o, kind=kind, circular=circular, explicit=explicit):
             name = fi.qualname
@@ -328,15 +383,12 @@ def k13_citations(ctx, pid: str):
     r = ctx.report
     p = ctx.program
     mgr = p.get_class("moclo.core._assembly.AssemblyManager")
-    deref = p.get_func("moclo.core._assembly.AssemblyManager._deref_citations")
-    ref = p.get_func("moclo.core._assembly.AssemblyManager._ref_citations")
+    from .roles import citation_functions, citation_regex
 
-    rx_raw = mgr.attrs.get("_CITATION_RX")
-    rx_pat = None
-    if isinstance(rx_raw, ast.Call) and rx_raw.args and isinstance(rx_raw.args[0], ast.Constant):
-        rx_pat = rx_raw.args[0].value
+    deref, ref = citation_functions(p)
+    rx_pat = citation_regex(p, deref)
     if not isinstance(rx_pat, str):
-        raise AnalysisError("anchor vanished: AssemblyManager._CITATION_RX is not re.compile(<literal>)")
+        raise AnalysisError("anchor vanished: the citation pattern of %s is not re.compile(<literal>)" % deref.qualname)
     try:
         rx = re.compile(rx_pat)
     except re.error:
@@ -411,7 +463,10 @@ def k13_citations(ctx, pid: str):
         out.append(("K13.reader-slot", name, okpos, "the i-th citation must be written back to slot i of the same qualifier: key %r of %r" % (key, obj)))
         return out
 
-    outs = run_paths(ctx, deref, lambda I: ((self_obj(), make_record(I)), {}), [N - 1], hooks=hooks, post=post_deref)
+    def args_for(f, I):
+        return ((self_obj(), make_record(I)) if f.owner is not None and f.kind == "method" else (make_record(I),)), {}
+
+    outs = run_paths(ctx, deref, lambda I: args_for(deref, I), [N - 1], hooks=hooks, post=post_deref)
     emit(ctx, outs, deref.where())
 
     # -- writer ---------------------------------------------------------
@@ -460,7 +515,7 @@ def k13_citations(ctx, pid: str):
         out.append(("K13.writer-slot", name, okpos, "the i-th citation must be written back to slot i: key %r of %r" % (key, obj)))
         return out
 
-    outs = run_paths(ctx, ref, lambda I: ((self_obj(), make_record(I)), {}), [N - 1], hooks=hooks, post=post_ref)
+    outs = run_paths(ctx, ref, lambda I: args_for(ref, I), [N - 1], hooks=hooks, post=post_ref)
     emit(ctx, outs, ref.where())
 
     # -- writer/reader agreement on the constants ---------------------------
@@ -681,10 +736,55 @@ def _find_loop(fi: FuncInfo, kind):
     return None
 
 
+def _find_walk_loop(p, fi: FuncInfo):
+    """(while loop, {function qualname: names it assigns per iteration}).  The
+    walk's while loop sits in the function itself or in a generator of the
+    same class/module that one of its for loops consumes; in the second case
+    the loop-carried state is split between the two frames."""
+    from .absint import _is_generator
+
+    def assigned_in(stmts):
+        out = set()
+        for b in stmts:
+            for node in ast.walk(b):
+                if isinstance(node, (ast.Assign, ast.AugAssign)):
+                    ts = node.targets if isinstance(node, ast.Assign) else [node.target]
+                    for t in ts:
+                        for x in ast.walk(t):
+                            if isinstance(x, ast.Name):
+                                out.add(x.id)
+                if isinstance(node, ast.For):
+                    for x in ast.walk(node.target):
+                        if isinstance(x, ast.Name):
+                            out.add(x.id)
+        return out
+
+    loop = _find_loop(fi, (ast.While,))
+    if loop is not None:
+        return loop, {fi.qualname: assigned_in(loop.body)}
+    for node in ast.walk(fi.node):
+        if isinstance(node, ast.For) and isinstance(node.iter, ast.Call):
+            f = node.iter.func
+            g = None
+            if isinstance(f, ast.Attribute) and isinstance(f.value, ast.Name) and f.value.id in ("self", "cls") and fi.owner is not None:
+                _, g = p.class_attr_def(fi.owner, f.attr)
+            elif isinstance(f, ast.Name):
+                g = fi.module.functions.get(f.id)
+            if isinstance(g, FuncInfo) and _is_generator(g.node):
+                inner = _find_loop(g, (ast.While,))
+                if inner is not None:
+                    names = assigned_in(node.body)
+                    for x in ast.walk(node.target):
+                        if isinstance(x, ast.Name):
+                            names.add(x.id)
+                    return inner, {g.qualname: assigned_in(inner.body), fi.qualname: names}
+    return None, {}
+
+
 def k14_walk(ctx, pid: str):
     p, mgr, mod_cls, vec_cls = _mgr_world(ctx)
     fi = p.get_func("moclo.core._assembly.AssemblyManager._generate_assembly")
-    loop = _find_loop(fi, (ast.While,))
+    loop, assigned_by = _find_walk_loop(p, fi)
     if loop is None:
         raise AnalysisError("%s: the walk is no longer a while loop; the inductive-step evaluation does not apply" % fi.where())
     hooks = _entity_hooks(p)
@@ -696,29 +796,22 @@ def k14_walk(ctx, pid: str):
 
     hooks["map_value"] = map_value
 
-    assigned = set()
-    for b in loop.body:
-        for node in ast.walk(b):
-            if isinstance(node, (ast.Assign, ast.AugAssign)):
-                ts = node.targets if isinstance(node, ast.Assign) else [node.target]
-                for t in ts:
-                    if isinstance(t, ast.Name):
-                        assigned.add(t.id)
-
     def havoc(fr: Frame):
         I = fr.I
-        for nm in sorted(assigned):
-            v = fr.env.get(nm)
-            if isinstance(v, Term):
-                fr.env[nm] = KAPPA
-            elif isinstance(v, ARec):
-                I.path.cons.add(P_LEN)
-                fr.env[nm] = ARec(v.circular, [Piece("P", ZERO, P_LEN)], Term("P"), deriv=("accumulator",))
-            elif nm in fr.env:
-                fr.env[nm] = Term("havoc:" + nm)
-        for nm, v in fr.env.items():
-            if isinstance(v, AMap):
-                v.adds, v.removes = [], []
+        for f in (I.frames or [fr]):
+            names = assigned_by.get(f.fi.qualname if f.fi is not None else "", set())
+            for nm in sorted(names):
+                v = f.env.get(nm)
+                if isinstance(v, Term):
+                    f.env[nm] = KAPPA
+                elif isinstance(v, ARec):
+                    I.path.cons.add(P_LEN)
+                    f.env[nm] = ARec(v.circular, [Piece("P", ZERO, P_LEN)], Term("P"), deriv=("accumulator",))
+                elif nm in f.env:
+                    f.env[nm] = Term("havoc:" + nm)
+            for nm, v in f.env.items():
+                if isinstance(v, AMap):
+                    v.adds, v.removes = [], []
 
     hooks["havoc"] = havoc
 
@@ -835,10 +928,20 @@ def k16_assemble(ctx, pid: str):
 
     product = lambda: ARec(True, [Piece("PRODUCT", ZERO, Aff.sym("len:product"))], Term("product"))
     hooks[base + "_generate_modules_map"] = stub("map", True, lambda: AMap("M"))
-    hooks[base + "_deref_citations"] = stub("deref", False)
+    from .roles import citation_functions
+
+    deref_f, ref_f = citation_functions(p)
+
+    def unbound(h, f):
+        # module-level functions receive the record first; methods receive self first: present both to the stub alike
+        if f.owner is not None and f.kind == "method":
+            return h
+        return lambda I, f_, args, kwargs: h(I, f_, [None] + list(args), kwargs)
+
+    hooks[deref_f.qualname] = unbound(stub("deref", False), deref_f)
     hooks[base + "_generate_assembly"] = stub("walk", True, product)
     hooks[base + "_annotate_assembly"] = stub("annotate", True)
-    hooks[base + "_ref_citations"] = stub("ref", False)
+    hooks[ref_f.qualname] = unbound(stub("ref", False), ref_f)
 
     def make_args(I):
         V = _entity(vec_cls, "V")
@@ -883,6 +986,16 @@ def k16_assemble(ctx, pid: str):
             ann = [i for i, x in enumerate(ph) if x[0] == "annotate" and x[1] and isinstance(x[1][0], ARec) and repr(x[1][0].ident) == "product"]
             ok = bool(walk) and bool(ann) and bool(refs_prod) and walk[0] < refs_prod[0] and isinstance(o.value, ARec) and repr(o.value.ident) == "product"
             out.append(("K16.product", name, ok, "the product must be generated, annotated, re-referenced and returned: phases %r, value %r" % (names, o.value)))
+            if ann and refs_prod and refs_prod[-1] < ann[-1]:
+                # the reference list is created by the re-referencing of the product: what runs afterwards must keep it
+                from .rules_flow import annotate_summary
+
+                sm = annotate_summary(ctx)
+                lost = sm["replaces_annotations"] or sm["drops_references"]
+                out.append(("K16.references-kept", name, not lost,
+                            "the product's citations are numbered into annotations['references'] before %s runs, and that function %s: the "
+                            "product keeps '[n]' citations without the reference list they index" % (
+                                "_annotate_assembly", "replaces the annotations wholesale" if sm["replaces_annotations"] else "rewrites the references entry")))
             loops = [e for e in o.path.effects if e[0] == "loop"]
             okl = all(e[1] == "elements" for e in loops) and len(loops) >= 2
             out.append(("K16.all-inputs", name, okl, "the citation rewrite must cover every element (all modules and the vector): loops over %r" % ([e[1] for e in loops],)))
